@@ -169,6 +169,8 @@ func main() {
 
 	if err := app.Run(os.Args); err != nil {
 		fmt.Fprint(os.Stderr, err)
+		// usage errors (stray arguments, unknown flags) are plain errors, not cli.ExitCoder: exit non-zero for them too
+		os.Exit(1)
 	}
 }
 
